@@ -174,6 +174,18 @@ impl Prop for DtOffset {
                 w.micros_since(&v),
                 w.nanos_since(&v),
             );
+            // ... and against other values: an offset on either operand changes no difference
+            for (k, delta) in [(0u8, 365i128 * tl::DAY_NS + 900 * tl::NS), (1, -366 * tl::DAY_NS - 1_800 * tl::NS), (2, 31 * tl::DAY_NS), (3, -59 * tl::DAY_NS + 1)] {
+                let ri = i + delta;
+                if (c.i.ns as u64 + k as u64) % 2 == 0 && tl::representable(ri - tl::DAY_NS) && tl::representable(ri + tl::DAY_NS) {
+                    let r = mk_dt(ri);
+                    let dv = (v.years_since(&r), v.months_since(&r), v.days_since(&r), v.hours_since(&r), v.seconds_since(&r), r.years_since(&v), r.months_since(&v), r.days_since(&v));
+                    let dw = (w.years_since(&r), w.months_since(&r), w.days_since(&r), w.hours_since(&r), w.seconds_since(&r), r.years_since(&w), r.months_since(&w), r.days_since(&w));
+                    if dv != dw {
+                        panic!("differences against {} change with the offset: {:?} at offset 0, {:?} with the offset", fmt_instant(ri), dv, dw);
+                    }
+                }
+            }
             let x = v.as_offset(o);
             // second step: replace the offset of a value that already carries one
             let w2 = w.set_offset(Offset::Fixed(c.off2));
